@@ -11,11 +11,19 @@ import (
 
 	"go.starlark.net/starlark"
 	"go.starlark.net/starlarkstruct"
+	"go.starlark.net/syntax"
 )
 
 type Opts struct {
-	Funcs    bool // descend into function defaults and free variables
-	MaxNodes int  // 0 = 100000
+	Funcs     bool // descend into function defaults and free variables
+	MaxNodes  int  // 0 = 100000
+	FuncBrief bool // render any function (of any implementation) as <func name@line:col>
+}
+
+// funcLike is implemented by *starlark.Function and by functions of other evaluators.
+type funcLike interface {
+	starlark.Callable
+	Position() syntax.Position
 }
 
 type printer struct {
@@ -141,6 +149,10 @@ func (p *printer) val(v starlark.Value) {
 		it.Done()
 		p.b.WriteString("}")
 	case *starlark.Function:
+		if p.o.FuncBrief {
+			fmt.Fprintf(&p.b, "<func %s@%d:%d>", v.Name(), v.Position().Line, v.Position().Col)
+			return
+		}
 		if p.ref("func", v) {
 			return
 		}
@@ -193,8 +205,32 @@ func (p *printer) val(v starlark.Value) {
 		}
 		p.b.WriteString(v.Name)
 	default:
+		if f, ok := v.(funcLike); ok && p.o.FuncBrief {
+			fmt.Fprintf(&p.b, "<func %s@%d:%d>", f.Name(), f.Position().Line, f.Position().Col)
+			return
+		}
 		p.b.WriteString(v.Type() + ":" + v.String())
 	}
+}
+
+// GlobalsOpts is Globals with explicit options.
+func GlobalsOpts(g starlark.StringDict, o Opts) string {
+	if o.MaxNodes == 0 {
+		o.MaxNodes = 200000
+	}
+	p := &printer{ids: map[any]int{}, o: o}
+	names := make([]string, 0, len(g))
+	for n := range g {
+		names = append(names, n)
+	}
+	sort.Strings(names)
+	for _, n := range names {
+		p.b.WriteString(n)
+		p.b.WriteString(" = ")
+		p.val(g[n])
+		p.b.WriteString("\n")
+	}
+	return p.b.String()
 }
 
 // Error renders an error with message, every frame and the backtrace text.
